@@ -92,6 +92,7 @@ def generate(seed: int, tier: str) -> dict:
         "finalize_between": chance(orr, 0.6),
         "drop_source": chance(orr, 0.4),
         "twice": chance(orr, 0.3),
+        "restore_again": chance(orr, 0.35),
     }
 
 
@@ -201,6 +202,21 @@ def run(scn) -> Result:
             extra = sorted(k for k in R1 if k not in R0)
             if extra:
                 res.violate("C19.noextra", "restore", entries=[list(k) for k in extra[:4]])
+
+            # the dump is still there: restoring it a second time gives the same ------
+            if not res.violations and scn.get("restore_again"):
+                gc.collect()
+                try:
+                    second = restore_simulation(directory, world.tbs)
+                except Exception as e:  # noqa: BLE001
+                    res.violate("C19.values", "restore-again", what="second restore of the same directory raised", error=type(e).__name__, detail=str(e)[:200])
+                else:
+                    res.count("clause:C19.values.again")
+                    Rb = readable(second, env)
+                    if canon({f"{k[0]}@{k[1]}": v for k, v in Rb.items()}) != canon({f"{k[0]}@{k[1]}": v for k, v in R0.items()}) or structure(second) != S0:
+                        missing = sorted(f"{k[0]}@{k[1]}" for k in R0 if k not in Rb)[:4]
+                        res.violate("C19.values", "restore-again", what="second restore of the same directory differs from the original", missing=missing)
+                    second = None
 
             # C19.values again after a second round trip: a restored simulation is a
             # simulation like any other ---------------------------------------------
